@@ -130,4 +130,21 @@ theorem source_unit_floor (p l u w npq pc : ℚ) (robust : Bool) (r : ℤ) :
   exact ⟨by exact_mod_cast unit_floor_pred p w r, by exact_mod_cast unit_floor_lower l _ w r,
     by exact_mod_cast unit_floor_upper u _ w r⟩
 
+/-- gaussian aggregate bound as written in `GaussianElectionModel.get_aggregate_prediction_intervals`: un-residualise, floor at the
+    partial counts of the group's nonreporting units, add the counted votes, round -/
+theorem bridge_gauss_agg (last b part counted : ℚ) :
+    gaussAgg last b part counted = rhe (Gen.C03.total_lower (Gen.C03.predicted_lower last b part) counted) ∧
+    gaussAgg last b part counted = rhe (Gen.C03.total_upper (Gen.C03.predicted_upper last b part) counted) := ⟨rfl, rfl⟩
+
+/-- the frame whose row order the floor terms are aligned with (`last_election` on the left of the inner merge), the outer merge
+    with the counted frame, the fill, the sort -/
+theorem bridge_gauss_chains :
+    Gen.C03.unresidualize_chain = ["last_election", "merge(modeled_bounds, how='inner', on=aggregate)",
+      "assign(predicted_lower, predicted_upper)", "drop(columns=f'last_election_results_{estimand}')"] ∧
+    Gen.C03.total_chain = ["aggregate_votes", "merge(aggregate_prediction_intervals, how='outer', on=aggregate)",
+      "fillna({f'results_{estimand}': 0, 'predicted_lower': 0, 'predicted_upper': 0})", "assign(lower, upper)",
+      "sort_values(aggregate)", "[aggregate + ['lower', 'upper']]", "reset_index(drop=True)"] ∧
+    Gen.C03.gauss_returned = ["PredictionIntervals(aggregate_data.lower.round(decimals=0), aggregate_data.upper.round(decimals=0))"] :=
+  ⟨rfl, rfl, rfl⟩
+
 end ElexModel.Agg
